@@ -34,6 +34,7 @@ func ruleC19(c *Check) {
 	c.storedValuesValidate("C19.6")
 	c.moduleWiring("C19.7", map[string]bool{"genesis": true})
 	c.paramSetExact("C19.8")
+	c.genesisImportsAll("C19.5")
 	c.addressRoles("C19.9")
 }
 
@@ -966,5 +967,114 @@ func (c *Check) moduleWiring(rule string, which map[string]bool) {
 			}
 			c.req(n > 0 && ok, rule, unitConstruct(mb, "runs-end-blocker"), mb.Body.Pos(), "the module's EndBlock method runs the end blocker exactly once on every path")
 		}
+	}
+}
+
+// genesisImportsAll: the genesis import stores every element of every collection of the genesis state. For each
+// collection F of GenesisState there is a store Set of F's record family whose key is computed from the element (slice)
+// or the key (map) under the cursor of a loop over F itself, and that Set is reached under no condition other than the
+// success of genesis validation and of decoding / parsing that very element — an entry skipped because of some other
+// record (a withdrawal address whose owner has no binding yet) or looked up from another collection is dropped on import.
+func (c *Check) genesisImportsAll(rule string) {
+	ig := c.mustFn(rule, "service.InitGenesis")
+	if ig == nil {
+		return
+	}
+	want := map[string]string{"Definitions": "0x01", "Bindings": "0x02", "WithdrawAddresses": "0x07", "RequestContexts": "0x08"}
+	var fields []string
+	for f := range want {
+		fields = append(fields, f)
+	}
+	sort.Strings(fields)
+	effs := c.P.SummaryOf(ig).Effs
+	for _, F := range fields {
+		fam := want[F]
+		var hit *Eff
+		var why []string
+		for _, e := range effs {
+			if e.Kind != "store" || e.Op != "Set" || e.Family != fam || e.Key == nil {
+				continue
+			}
+			// the key is computed from the cursor of a loop over this very collection
+			fromCursor := false
+			e.Key.Walk(func(t *Term) bool {
+				if (t.Op == "elem" || t.Op == "key") && len(t.A) == 1 && strings.HasSuffix(stripConv(t.A[0]).Op, ".GenesisState."+F) {
+					fromCursor = true
+				}
+				return true
+			})
+			if !fromCursor {
+				why = append(why, "a record of the family is stored under a key not taken from the cursor over "+F+": "+shortTerm(e.Key))
+				continue
+			}
+			// guards: validation of the genesis state, and decoding / parsing of this element only
+			extra := []string{}
+			for _, g := range e.Guards {
+				gs := g.T.String()
+				if g.T.Op == "ok" && (strings.Contains(gs, "ValidateGenesis") || strings.Contains(gs, ".GenesisState."+F)) {
+					continue
+				}
+				extra = append(extra, g.String())
+			}
+			if len(extra) > 0 {
+				sort.Strings(extra)
+				why = append(why, "the element is stored only under "+strings.Join(extra, " ∧ "))
+				continue
+			}
+			hit = e
+		}
+		// every committed path that takes an element of the collection under its cursor stores it (no skip inside the loop)
+		if hit != nil {
+			for _, pa := range c.P.PathsOf(ig) {
+				if pa.Exit != ExitSuccess {
+					continue
+				}
+				touches := false
+				for _, ev := range pa.Events {
+					for _, t := range []*Term{ev.Val, ev.Result, ev.Fact.T} {
+						if t == nil {
+							continue
+						}
+						t.Walk(func(u *Term) bool {
+							if (u.Op == "elem" || u.Op == "key") && len(u.A) == 1 && strings.HasSuffix(stripConv(u.A[0]).Op, ".GenesisState."+F) {
+								touches = true
+							}
+							return !touches
+						})
+					}
+					if ev.Kind == EvCall && ev.CI != nil {
+						for _, a := range ev.CI.args {
+							a.Walk(func(u *Term) bool {
+								if (u.Op == "elem" || u.Op == "key") && len(u.A) == 1 && strings.HasSuffix(stripConv(u.A[0]).Op, ".GenesisState."+F) {
+									touches = true
+								}
+								return !touches
+							})
+						}
+					}
+				}
+				if !touches {
+					continue
+				}
+				stored := false
+				for _, e := range c.pathEffects(ig, pa) {
+					if e.Kind == "store" && e.Op == "Set" && e.Family == fam {
+						stored = true
+					}
+				}
+				if !stored {
+					why = append(why, "a committed path takes an element of "+F+" under its cursor and does not store it (path ending "+c.pos(pa.RetPos)+")")
+					hit = nil
+					break
+				}
+			}
+		}
+		c.Sites++
+		pos := ig.Body.Pos()
+		if hit != nil {
+			pos = hit.Pos
+		}
+		c.req(hit != nil, rule, "GenesisState."+F+"#import-all", pos,
+			"every element of "+F+" is stored (family "+fam+") from a loop over that collection, unconditionally"+condStr(hit == nil && len(why) > 0, ": "+strings.Join(why, "; "))+condStr(hit == nil && len(why) == 0, ": no store of the family in the import"))
 	}
 }
